@@ -778,10 +778,13 @@ class BaseProject(object, metaclass=ABCMeta):
         self.workflow.insert_absence_time_list(new_absence_time_list)
         self.organization.insert_absence_time_list(new_absence_time_list)
 
+        inserted_step_count = 0
         for step_time in sorted(new_absence_time_list):
-            self.cost_list.insert(step_time, 0.0)
+            if step_time < len(self.cost_list):
+                self.cost_list.insert(step_time, 0.0)
+                inserted_step_count += 1
 
-        self.time = self.time + len(new_absence_time_list)
+        self.time = self.time + inserted_step_count
         self.absence_time_list.extend(new_absence_time_list)
 
     def set_last_datetime(
